@@ -153,11 +153,39 @@ def chain(know, atoms, length, allow_beyond=False):
                 return None, 'bytes written outside [0, len): %s' % ', '.join('at ' + show_term(simp(know, a[1])) for a in remaining[:4])
             return None, 'no write covers offset %s (hole before the reported length %s)' % (show_term(simp(know, cursor)), show_term(simp(know, length)))
         if len(hit) > 1:
-            # the same offset written more than once: the later write wins, content of the earlier one is dead
+            # the same offset written more than once: the later write wins; what an earlier, *longer* write (a fill or a
+            # copy over a whole region) put beyond the end of the later one is still there and stays in the list
             hit.sort(key=lambda a: a[-1])
+            win = hit[-1]
+            n_w = K(USIZE, 1) if win[0] == 'cell' else win[2]
             for a in hit[:-1]:
                 remaining.remove(a)
-            hit = hit[-1:]
+                if a[0] == 'cell':
+                    continue
+                c0_, t0_ = lin_of(a[2])
+                c1_, t1_ = lin_of(n_w)
+                d_ = dict(t0_)
+                for l, c in t1_.items():
+                    d_[l] = d_.get(l, 0) - c
+                lo_, hi_ = know.interval(c0_ - c1_, d_)
+                if hi_ <= 0:
+                    continue            # the earlier write is no longer than the winner: fully dead
+                rest_n = mk_lin(USIZE, c0_ - c1_, d_)
+                ca_, ta_ = lin_of(a[1])
+                da_ = dict(ta_)
+                for l, c in t1_.items():
+                    da_[l] = da_.get(l, 0) + c
+                rest_lo = mk_lin(USIZE, ca_ + c1_, da_)
+                if a[0] == 'fill':
+                    remaining.append(('fill', rest_lo, rest_n, a[3], a[4]))
+                else:
+                    (sb_, slo_, shi_) = a[3]
+                    cs_, ts_ = lin_of(slo_)
+                    ds_ = dict(ts_)
+                    for l, c in t1_.items():
+                        ds_[l] = ds_.get(l, 0) + c
+                    remaining.append(('copy', rest_lo, rest_n, (sb_, mk_lin(USIZE, cs_ + c1_, ds_), shi_), a[4]))
+            hit = [win]
         a = hit[0]
         remaining.remove(a)
         ordered.append(a)
